@@ -66,6 +66,12 @@ THEOREMS = [
     "C04_now_needs_isinstance_agrees",
     "C04_args_fixed_behaviour",
     "C04_gate_sound_now",
+    "C04_link_local",
+    "C04_link_outcome",
+    "C04_end_of_chain_witness",
+    "C04_end_of_chain_unsound",
+    "C04_chain_sound",
+    "C04_deliver_checks_head",
 ]
 RULE = (
     "(1) pair cases: ordered pairs of REAL hint objects from the grammar cls | None | typing.Any | X|Y | Union/Optional | "
@@ -821,6 +827,7 @@ def gen_cases(rng, tier):
         yield _pair(h, o, rng, "restricted" if restricted else "full")
     yield from gen_gate_cases(rng, tier)
     yield from gen_exotic_cases(rng, tier)
+    yield from gen_chain_cases(rng, tier)
 
 
 # hand-picked pairs for the systematic part of the gate cases: (sending hint, receiving hint)
@@ -967,6 +974,22 @@ def corpus():
     yield G("mo", 1, 1, h=["an", F], o=F, pre=["i", 1])
     yield G("kw", 0, 1, h=None, o=I, post=[["push", ["s", "a"]]])
     yield G("io", 0, 1, h=S, o=None, post=[["push", ["i", 1]]])
+    IF = ["un", [I, F]]
+    CH = lambda h, rc, via="ic", **kw: {"kind": "chain", "h": h, "ss": kw.pop("ss", 1), "rc": rc, "sc": kw.pop("sc", []),  # noqa: E731
+                                       "via": via, "build": kw.pop("build", "plain"), "late": kw.pop("late", []),
+                                       "vals": kw.pop("vals", []), "mode": "corpus"}
+    # Outer(x: int) -> Inner(x: int) -> Halve(x: int | float), upstream output hinted float: must be refused by outer.x
+    for via in CHAIN_VIAS:
+        yield CH(F, [[I, 1], [I, 1], [IF, 1]], via, build="macro", vals=[["f", 1], ["i", 1]])
+        yield CH(F, [[I, 1], [IF, 1]], via, vals=[["f", 1]])
+    yield CH(F, [[I, 1], [I, 1], [IF, 0]], "oc", build="macro")          # the end of the chain has opted out
+    yield CH(F, [[I, 0], [I, 1], [IF, 1]], "ic", build="macro", vals=[["f", 1]])  # the head has opted out: waived
+    yield CH(I, [[IF, 1], [I, 0]], "ic", vals=[["f", 1], ["i", 1]])      # narrowing chain behind a lax member
+    yield CH(["c", "bool"], [[I, 1], [IF, 1], ["c", "object"], 1][:3] and [[I, 1], [IF, 1], [["c", "object"], 1]], "kw",
+             build="macro", sc=[[I, 1], [IF, 1]], vals=[["b", True]])
+    yield CH(F, [[None, 1], [I, 1]], "io", build="macro", vals=[["f", 1]])  # hint-less macro argument: nothing compared
+    yield CH(F, [[I, 1], [None, 1], [IF, 1]], "ion", vals=[["f", 1]])
+    yield CH(S, [[I, 1], [S, 0]], "ic", late=[[2, 1]], vals=[["s", "a"]])
     X = lambda a, b: {"kind": "exotic", "h": a, "o": b, "mode": "corpus"}  # noqa: E731
     yield X("type[list[int]]", "type")
     yield X("Annotated[Any]", "Any")
@@ -1160,6 +1183,8 @@ def run_impl(case):
         return run_gate(case)
     if case["kind"] == "exotic":
         return run_exotic(case)
+    if case["kind"] == "chain":
+        return run_chain(case)
     if case["kind"] == "malformed":
         return {"obs": ["bad-op"] * len(case["lines"]), "stats": {"malformed": 1}, "skip": False, "variant": variant()}
     try:
@@ -1220,6 +1245,8 @@ def nontrivial(case, r):
         return False
     if case["kind"] == "exotic":
         return r["cmp"][0] in ("T", "F")
+    if case["kind"] == "chain":
+        return r["link"] in ("ok", "refused") and r["th"] is not None and r["rct"][0] is not None and len(r["rct"]) > 1
     if case["kind"] == "gate":
         return r["link"] in ("ok", "refused", "receiver-rejects") and r["th"] is not None and r["to"] is not None
     return case["kind"] == "pair" and r["cmp"][0] in ("T", "F") and (r["th"][0] != "c" or r["to"][0] != "c")
@@ -1751,6 +1778,371 @@ def gate_oracle(case, r):
     return fails
 
 
+# ----------------------------------------------------------------------------- chain cases: targets that forward their data
+
+CHAIN_VIAS = {"oc": "oc", "ic": "ic", "io": "ic", "ion": "ic", "kw": "ic", "ri": "ri", "ro": "ro"}
+
+
+def _mk_nested(hints):
+    """Outer(x: hints[0]) -> ... -> leaf function node (x: hints[-1]): one macro per level above the leaf"""
+    from pyiron_workflow.nodes.macro import as_macro_node
+
+    inner = _mk_fn(hints[-1], None)
+    def level(child_cls, h):
+        _CNT[0] += 1
+
+        def m(self, x):
+            self.child = child_cls()
+            self.child.inputs.x = x
+            return self.child.outputs.y
+
+        return as_macro_node("y", validate_output_labels=False)(_annotate(m, f"C04N{_CNT[0]}", h, None))
+
+    for h in reversed(hints[:-1]):
+        inner = level(inner, h)
+    return inner
+
+
+def run_chain(case):
+    from pyiron_workflow import Workflow
+
+    via = case["via"]
+    mech = CHAIN_VIAS[via]
+    value_link = mech in ("ri", "ro")
+    out_chain = mech == "ro"  # the receiving chain consists of outputs
+    try:
+        H = _guarded_build(case.get("h"))
+        th = None if H is None else abstract(H)
+        rcH = [_guarded_build(t) for t, _ in case["rc"]]
+        rct = [None if x is None else abstract(x) for x in rcH]
+        scH = [_guarded_build(t) for t, _ in case.get("sc", [])]
+        sct = [None if x is None else abstract(x) for x in scH]
+    except (Unsupported, TypeError) as e:
+        return {"obs": [], "skip": True, "why": repr(e), "stats": {"skipped-unbuildable": 1}}
+    if any(t and _annotated_any(t) for t in [th] + rct + sct):
+        return {"obs": [], "skip": True, "why": "Annotated[Any]", "stats": {"skipped-annotated-any": 1}}
+    macro = case.get("build") == "macro" and not out_chain and len(rcH) >= 2
+    wf = Workflow("w", autoload=None)
+    obs, trace = [], []
+    # --- channels: 0 = sender, 1.. = the receiving chain, then the channels the sender forwards to
+    wf.a = _mk_fn(H, H)()
+    s = wf.a.inputs.x if mech == "ri" else wf.a.outputs.y
+    flags0 = [1 if macro else int(f) for _, f in case["rc"]]  # flags while the chain is forged (a macro is born strict)
+    if macro:
+        try:
+            wf.outer = _mk_nested(rcH)()
+        except Exception as e:  # noqa: BLE001  the nested macro refused its own links: not the subject here
+            return {"obs": [], "skip": True, "why": _exc_outcome(e, True), "stats": {"chain-macro-refused": 1}}
+        chain, node = [], wf.outer
+        for _ in rcH:
+            chain.append(node.inputs.x)
+            node = getattr(node, "child", None)
+        target_owner = wf.outer
+    else:
+        nodes = []
+        for i, hx in enumerate(rcH):
+            n = _mk_fn(hx, hx)()
+            setattr(wf, f"b{i}", n)
+            nodes.append(n)
+        chain = [n.outputs.y if out_chain else n.inputs.x for n in nodes]
+        for ch, f in zip(chain, flags0):
+            ch.strict_hints = bool(f)
+        target_owner = nodes[0]
+    schain = []
+    for i, (hx, (_, f)) in enumerate(zip(scH, case.get("sc", []))):
+        n = _mk_fn(hx, hx)()
+        setattr(wf, f"d{i}", n)
+        n.outputs.y.strict_hints = bool(f)
+        schain.append(n.outputs.y)
+    s.strict_hints = bool(case.get("ss", 1))
+    forged = []  # (mech, from, to, sender channel, receiver channel) in forging order
+
+    def forge(frm, to, a, b, m):
+        if macro and m == "ri" and frm >= 1:
+            res = "ok" if a.value_receiver is b else "EXC:chain-shape"
+        else:
+            def go():
+                try:
+                    a.value_receiver = b
+                except Exception as e:  # noqa: BLE001
+                    return _exc_outcome(e, True)
+                return "ok" if a.value_receiver is b else "EXC:not-linked"
+            res = _guarded(go, margin=500)
+        obs.append(f"link {res}")
+        trace.append({"op": "forge", "from": frm, "to": to, "res": res, "sr": int(bool(b.strict_hints))})
+        if res == "ok":
+            forged.append((m, frm, to, a, b))
+        return res == "ok"
+
+    ok = True
+    cm = "ro" if out_chain else "ri"
+    for i in range(len(chain) - 1):
+        ok = ok and forge(i + 1, i + 2, chain[i], chain[i + 1], cm)
+        if not ok:
+            break
+    base = 1 + len(chain)
+    prev, prev_i = s, 0
+    if ok and not value_link:
+        for i, ch in enumerate(schain):
+            ok = ok and forge(prev_i, base + i, prev, ch, "ro")
+            if not ok:
+                break
+            prev, prev_i = ch, base + i
+    late = []
+    if ok:
+        for idx, f in case.get("late", []):
+            if 1 <= idx <= len(chain):
+                chain[idx - 1].strict_hints = bool(f)
+                late.append([idx, int(f)])
+        if macro:  # the flags the case asks for can only be set now
+            for i, (_, f) in enumerate(case["rc"]):
+                if not f and [i + 1, 0] not in late and all(x[0] != i + 1 for x in late):
+                    chain[i].strict_hints = False
+                    late.append([i + 1, 0])
+    r = chain[0]
+    link = None
+    pushes = []
+    if ok:
+        act = {
+            "oc": lambda: s.connect(r), "ic": lambda: r.connect(s),
+            "io": lambda: setattr(target_owner.inputs, "x", s), "ion": lambda: setattr(target_owner.inputs, "x", wf.a),
+            "kw": lambda: target_owner.set_input_values(x=s),
+            "ri": lambda: setattr(s, "value_receiver", r), "ro": lambda: setattr(s, "value_receiver", r),
+        }[via]
+
+        def linked():
+            if value_link:
+                return s.value_receiver is r
+            a, b = any(c is r for c in s.connections), any(c is s for c in r.connections)
+            return "half" if a != b else a
+
+        def go():
+            try:
+                act()
+            except Exception as e:  # noqa: BLE001
+                return _exc_outcome(e, value_link)
+            return "ok"
+
+        link = _guarded(go, margin=500)
+        st = linked()
+        if link == "ok" and st is not True:
+            link = "EXC:not-linked"
+        elif link != "ok" and st is not False:
+            link = str(link) + "+dangling"
+        obs.append(f"link {link}")
+        sr_now = int(bool(r.strict_hints))
+        trace.append({"op": "link", "res": link, "ss": int(bool(s.strict_hints)), "sr": sr_now})
+        if link == "ok":
+            forged.append((mech, 0, 1, s, r))
+            for v in case.get("vals", []):
+                try:
+                    real = build_val(v)
+                    av = abstract_val(real)
+                except (Unsupported, TypeError, KeyError):
+                    continue
+                from pyiron_workflow.channels import NOT_DATA
+                from pyiron_workflow.type_hinting import valid_value
+
+                res = "ok"
+                try:
+                    s.value = real
+                except TypeError:
+                    mine = bool(s.strict_hints and s.type_hint is not None and real is not NOT_DATA
+                                and not valid_value(real, s.type_hint))
+                    res = "sender-rejects" if (mine or not value_link) else "receiver-rejects"
+                except Exception as e:  # noqa: BLE001
+                    res = f"EXC:{type(e).__name__}"
+                if res == "ok" and not value_link:
+                    try:
+                        r.fetch()
+                    except TypeError:
+                        res = "receiver-rejects"
+                    except Exception as e:  # noqa: BLE001
+                        res = f"EXC:{type(e).__name__}"
+                obs.append(f"push {res}")
+                pushes.append({"v": av, "res": res, "h": None if H is None else _vv(real, H),
+                               "o": None if rcH[0] is None else _vv(real, rcH[0]),
+                               "own": bool(r.strict_hints and r.type_hint is not None and not valid_value(real, r.type_hint))})
+    # links as they are, newest first
+    alive = []
+    for m, frm, to, a, b in forged:
+        if m in ("ri", "ro"):
+            if a.value_receiver is b:
+                alive.append(f"{m}:{frm}>{to}")
+        elif any(c is b for c in a.connections) and any(c is a for c in b.connections):
+            alive.append(f"{m}:{frm}>{to}")
+    obs.append(" ".join(["links"] + alive[::-1]))
+    # witnesses for the oracle and for the correspondence of valid_value on every hint involved
+    vals, seen = [], set()
+    for v in list(case.get("vals", [])) + (pool(th) if th else []) + (pool(rct[0]) if rct[0] else []) + GLOBAL_POOL[:3]:
+        try:
+            real = build_val(v)
+            av = abstract_val(real)
+        except (Unsupported, TypeError, KeyError):
+            continue
+        if repr(av) not in seen:
+            seen.add(repr(av))
+            vals.append((av, real))
+    vals = vals[:14]
+    hints = [(0, th, H)] + [(i + 1, t, x) for i, (t, x) in enumerate(zip(rct, rcH))]
+    adm = []
+    for av, real in vals:
+        row = {"v": av, "h": None if H is None else _vv(real, H), "o": None if rcH[0] is None else _vv(real, rcH[0]),
+               "tg_o": None if rcH[0] is None else _tg_only(real, rcH[0]), "all": []}
+        for _, t, x in hints:
+            if x is not None:
+                a = _vv(real, x)
+                row["all"].append(a)
+                obs.append(f"adm {a}")
+        adm.append(row)
+    depth_r = len(chain) - 1
+    stats = {"mode:chain": 1, f"chain-via:{via}": 1, f"chain-depth:{depth_r}": 1, f"chain-sender-depth:{len(schain)}": 1,
+             f"chain-build:{'macro' if macro else 'plain'}": 1, f"chain-link:{link}": 1,
+             "variant:" + "".join(map(str, variant())): 1, "chain-pushes": len(pushes)}
+    if link == "ok" and th is not None and rct[0] is not None and trace[-1]["sr"]:
+        stats["chain-accepted-by-strict-head"] = 1
+    return {"obs": obs, "skip": False, "th": th, "rct": rct, "sct": sct, "flags0": flags0, "late": late, "mech": mech,
+            "cm": cm, "value_link": value_link, "forged_ok": ok, "link": link, "trace": trace, "pushes": pushes, "adm": adm,
+            "stats": stats, "variant": variant(), "ss": int(bool(case.get("ss", 1))),
+            "sflags": [int(f) for _, f in case.get("sc", [])]}
+
+
+def chain_model_input(case, impl):
+    def T(t):
+        return " ".join(tok(t)) if t else "-"
+
+    th, rct, sct = impl["th"], impl["rct"], impl["sct"]
+    lines = ["cfg " + " ".join(map(str, impl["variant"])), f"chan 0 {T(th)} {impl['ss']}"]
+    for i, (t, f) in enumerate(zip(rct, impl["flags0"])):
+        lines.append(f"chan {i + 1} {T(t)} {f}")
+    base = 1 + len(rct)
+    for i, (t, f) in enumerate(zip(sct, impl["sflags"])):
+        lines.append(f"chan {base + i} {T(t)} {f}")
+    n_forge = sum(1 for t in impl["trace"] if t["op"] == "forge")
+    k = 0
+    for i in range(len(rct) - 1):
+        if k < n_forge:
+            lines.append(f"link {impl['cm']} {i + 1} {i + 2}")
+            k += 1
+    prev = 0
+    for i in range(len(sct)):
+        if k < n_forge:
+            lines.append(f"link ro {prev} {base + i}")
+            prev = base + i
+            k += 1
+    if impl["forged_ok"]:
+        for idx, f in impl["late"]:
+            lines.append(f"strict {idx} {f}")
+        lines.append(f"link {impl['mech']} 0 1")
+        for p in impl["pushes"]:
+            lines.append(f"pushd {impl['mech']} 0 1 " + " ".join(tok_val(p["v"])))
+    lines.append("links")
+    for a in impl["adm"]:
+        v = " ".join(tok_val(a["v"]))
+        for t in [th] + rct:
+            if t:
+                lines.append(f"adm {T(t)} {v}")
+    return lines
+
+
+def chain_oracle(case, r):
+    """C04 for a connection (or value link) whose target forwards its data: the guarantee is about the channel the
+    link is MADE TO -- its hint, its flag -- whatever it forwards to further down"""
+    th, to = r["th"], r["rct"][0]
+    fails = []
+    both = th is not None and to is not None
+    restricted = _restricted(th, to) if both else True
+
+    def fail(clause, detail, **sig):
+        fails.append({"clause": clause, "detail": f"{detail}  [chain via={case['via']} out={th} chain={r['rct']} case={case}]",
+                      "signature": {"clause": clause, "trigger": "chain", "via": case["via"], "restricted": restricted, **sig}})
+
+    for t in r["trace"]:
+        res = str(t["res"])
+        if res.startswith("EXC") or res.endswith("+dangling"):
+            fail("crash", f"{t['op']} gave {res}", where=t["op"])
+            return fails
+        if res == "REC":
+            fail("total", "the comparison did not come back while linking", exc="REC", old_union=False)
+            return fails
+    for p in r["pushes"]:
+        if str(p["res"]).startswith("EXC"):
+            fail("crash", f"push gave {p['res']}", where="push")
+            return fails
+    wit = _unsound_witness([a for a in r["adm"] if a["h"] is not None and a["o"] is not None], th, to) if both else None
+    main = r["trace"][-1] if r["trace"] and r["trace"][-1]["op"] == "link" else None
+    if main and main["res"] == "ok" and both and main["sr"]:
+        if wit is not None:
+            fail("unsound", f"link accepted by the strict channel it is made to (hint {to}) although witness {wit[0]['v']} is "
+                            f"admitted by the sending hint and rejected by that channel's hint", cause=wit[1],
+                 sender_strict=main["ss"], depth=len(r["rct"]) - 1)
+            return fails
+        for p in r["pushes"]:
+            if p["res"] == "receiver-rejects" and p["h"] == "T" and p["own"]:
+                fail("unsound", f"the channel the link was made to refuses value {p['v']} that the sending hint admits",
+                     cause=(_unsound_witness([{**p, "tg_o": None}], th, to) or (None, "other"))[1], stage="push")
+                return fails
+    for a in r["adm"]:
+        if any(x not in ("T", "F") for x in a["all"]):
+            fail("crash", f"valid_value raised on witness {a['v']}: {a['all']}", where="valid_value")
+            break
+    return fails
+
+
+def gen_chain_cases(rng, tier):
+    """connection targets that HAVE value receivers: 1-3 links below the channel the link is made to, hints narrowing or
+    widening along the chain, the sender's hint in between; flags of every member, switched before or after the chain
+    was forged; plain function nodes or really nested macros; the sender forwarding to 0-2 outputs of its own"""
+    E1 = enum_depth1()
+    n = 260 if tier == "quick" else 5000
+    ladders = [[["c", "bool"], ["c", "int"], ["un", [["c", "int"], ["c", "float"]]], ["c", "object"]],
+               [["c", "C"], ["c", "B"], ["c", "A"], ["c", "object"]],
+               [["li", ["c", "bool"]], ["li", ["c", "int"]], ["c", "list"], ["c", "Sequence"]],
+               [["lit", [["s", "a"]]], ["lit", [["s", "a"], ["s", "b"]]], ["c", "str"], ["c", "Sequence"]],
+               [["tf", [["c", "bool"]]], ["tf", [["c", "int"]]], ["tv", ["c", "int"]], ["c", "tuple"]]]
+    between = {0: [["c", "float"], ["c", "int"], ["un", [["c", "int"], ["c", "float"]]], ["c", "object"], ["c", "str"]],
+               1: [["c", "A"], ["c", "B"], ["c", "object"], ["c", "D"]],
+               2: [["li", ["c", "int"]], ["c", "list"], ["li", ["c", "str"]], ["c", "Sequence"]],
+               3: [["c", "str"], ["lit", [["s", "b"]]], ["lit", [["s", "a"], ["s", "b"]]], ["c", "Sequence"]],
+               4: [["tf", [["c", "int"]]], ["tv", ["c", "int"]], ["c", "tuple"], ["tf", [["c", "float"]]]]}
+    for i in range(n):
+        depth = rng.choice([1, 1, 2, 2, 3])
+        k = rng.random()
+        if k < 0.6:
+            # a ladder: the chain widens downwards (every link legal), the sender lies somewhere on or between the rungs
+            li = rng.randrange(len(ladders))
+            lad = ladders[li]
+            start = rng.randrange(0, len(lad) - 1)
+            rc = [lad[min(start + j, len(lad) - 1)] for j in range(depth + 1)]
+            h = rng.choice(between[li] + lad)
+        elif k < 0.8:
+            h = gen_hint(rng, rng.choice([0, 1]), True) if rng.random() < 0.7 else rng.choice(E1)
+            rc = [generalise(rng, h, False) if rng.random() < 0.5 else (gen_hint(rng, 1, False))]
+            for _ in range(depth):
+                rc.append(generalise(rng, rc[-1], False))
+        else:
+            h = rng.choice(E1)
+            rc = [rng.choice(E1) for _ in range(depth + 1)]  # arbitrary: needs lax members to be forged
+        if h[0] == "N" or any(x[0] == "N" for x in rc):
+            continue
+        if rng.random() < 0.08:
+            h = None
+        rcf = []
+        for j, t in enumerate(rc):
+            lax = rng.random() < (0.12 if j == 0 else 0.3)
+            rcf.append([None if (j > 0 and rng.random() < 0.1) else t, 0 if lax else 1])
+        via = rng.choice(list(CHAIN_VIAS))
+        sc = []
+        if CHAIN_VIAS[via] in ("oc", "ic") and h is not None and rng.random() < 0.3:
+            for _ in range(rng.choice([1, 1, 2])):
+                sc.append([generalise(rng, sc[-1][0] if sc else h, False), 0 if rng.random() < 0.2 else 1])
+        late = [[rng.randrange(1, len(rcf) + 1), rng.choice([0, 1])] for _ in range(rng.choice([0, 0, 1, 2]))]
+        cand = (_members(h, 3) if h else []) + _members(rcf[0][0], 2) + _members(rcf[-1][0] or ["c", "int"], 2)
+        yield {"kind": "chain", "h": h, "ss": 0 if rng.random() < 0.3 else 1, "rc": rcf, "sc": sc, "via": via,
+               "build": "macro" if rng.random() < 0.4 else "plain", "late": late,
+               "vals": [rng.choice(cand) for _ in range(rng.choice([0, 1, 2, 3]))] if cand else [], "mode": "chain"}
+
+
 # ----------------------------------------------------------------------------- exotic cases: hints beyond the model
 
 _EXOTIC = None
@@ -2002,6 +2394,8 @@ def model_input(case, impl=None):
         return gate_model_input(case, impl)
     if case["kind"] == "exotic":
         return []  # beyond the modelled grammar: oracle only
+    if case["kind"] == "chain":
+        return chain_model_input(case, impl)
     h, o = " ".join(tok(impl["th"])), " ".join(tok(impl["to"]))
     s = impl["strict"]
     lines = ["cfg " + " ".join(map(str, impl["variant"])),
@@ -2077,6 +2471,8 @@ def oracle(case, r):
         return gate_oracle(case, r)
     if case["kind"] == "exotic":
         return exotic_oracle(case, r)
+    if case["kind"] == "chain":
+        return chain_oracle(case, r)
     if case["kind"] != "pair":
         return []
     th, to = r["th"], r["to"]
@@ -2174,6 +2570,20 @@ def _shrinks(t):
 
 
 def shrink_candidates(case):
+    if case["kind"] == "chain":
+        if case.get("vals"):
+            yield {**case, "vals": case["vals"][:-1]}
+        if case.get("sc"):
+            yield {**case, "sc": case["sc"][:-1]}
+        if case.get("late"):
+            yield {**case, "late": case["late"][:-1]}
+        if len(case["rc"]) > 2:
+            yield {**case, "rc": case["rc"][:-1], "late": [x for x in case.get("late", []) if x[0] < len(case["rc"])]}
+        if case.get("build") == "macro":
+            yield {**case, "build": "plain"}
+        if case["via"] != CHAIN_VIAS[case["via"]]:
+            yield {**case, "via": CHAIN_VIAS[case["via"]]}
+        return
     if case["kind"] == "gate":
         for i in range(len(case.get("post", []))):
             yield {**case, "post": case["post"][:i] + case["post"][i + 1:]}
